@@ -170,6 +170,41 @@ def run_cfg(args):
                     bad = FL.validity(cfg, o[1], n_)
                     if bad:
                         t.fail("C03|%s[reference of the data]|%s|canonical-pose" % (cname, bad), dict(case, got=np.asarray(o[1])[:3]))
+        # single-frame estimators, one sample at a time: every row of the canonical-pose histories through the one-sample constructor
+        # (1-D inputs) and through estimate() of a data-less object, in the configured representation
+        if cfg["f"] in SINGLE_FRAME and cfg["arch"] in ("ACCMAG", "ACC"):
+            import inspect as _insp
+            for hc in HIST_CLASSES[2:]:
+                acc, mag = pose_history(hc, 0, 12)
+                for k_ in range(12):
+                    a1, m1 = acc[k_], (mag[k_] if cfg["arch"] == "ACCMAG" else None)
+                    routes1 = [("one-sample constructor", lambda: FL.batch(cfg, None, a1, m1)[1])]
+                    try:
+                        obj0 = FL.create(cfg)
+                        est = getattr(obj0, "estimate", None)
+                    except Exception:
+                        est = None
+                    if est is not None:
+                        ek = {"representation": cfg["rep"]} if "representation" in _insp.signature(est).parameters else {}
+                        if cfg["f"] == "FLAE":
+                            ek["method"] = cfg["mode"]
+                        if "representation" in _insp.signature(est).parameters or cfg["rep"] == "quaternion":
+                            routes1.append(("estimate()", (lambda est=est, ek=ek: est(a1.copy(), m1.copy(), **ek)) if m1 is not None else (lambda est=est, ek=ek: est(a1.copy(), **ek))))
+                    for rname, fn1 in routes1:
+                        t.calls += 1
+                        t.keys.add((cname, rname, hc, k_))
+                        o = core.outcome(fn1)
+                        case = {"cfg": cfg, "history": hc, "row": k_, "acc": a1, "mag": m1, "route": rname}
+                        if o[0] != "ok":
+                            t.fail("C03|%s|%s|raises-%s|canonical-pose" % (cname, rname, o[1]), dict(case, err=o[2]))
+                            continue
+                        if o[1] is None:
+                            t.fail("C03|%s|%s|returns-None|canonical-pose" % (cname, rname), case)
+                            continue
+                        arr = np.asarray(o[1])
+                        bad = FL.validity(cfg, arr.reshape((1,) + arr.shape) if arr.ndim in (1, 2) and arr.shape in ((4,), (3,), (3, 3)) else arr, 1)
+                        if bad:
+                            t.fail("C03|%s|%s|%s|canonical-pose" % (cname, rname, bad), dict(case, got=arr))
         # one LONG history per recursive class and sensor combination (default gain and rate, quaternion output): "for any history
         # length"; a recursion rewritten in closed form (powers of the gain, cumulative sums) under- or overflows only after thousands of rows
         if cfg["f"] in LONG_CLASSES and cfg["gain"] == "default" and cfg["rate"] == "100Hz" and cfg["rep"] == "quaternion" and cfg["mode"] in ("-", "fixed", "closed"):
